@@ -27,6 +27,10 @@ TRAIT_BITS = {'t1': 2, 't2': 4, 't3': 8}
 ORDER0 = int(T0 * 1000000) - int(scheduler._GLOBAL_ORDER_BASE)
 
 
+class SkipEvent(Exception):
+    """The event's guard does not hold in the current state: not applied, not logged."""
+
+
 class VClock:
     """Virtual clock: integer model ticks + strictly increasing microseconds."""
     def __init__(self):
@@ -223,7 +227,18 @@ class World:
         self.cell.remove_identity_group(g)
 
     def ev_Renew(self, a):
-        self.cell.apps[a].renew = True
+        # guard of Sched.tla's Renew: nothing but the scheduler itself ever sets the
+        # flag in this code base, so it is only set where a cycle can consume it
+        app = self.cell.apps.get(a)
+        srv = self.servers.get(app.server) if app is not None and app.server else None
+        ig = app.identity_group_ref if app is not None else None
+        if (app is None or srv is None or srv.parent is None or srv.state is not scheduler.State.up
+                or app.renew or app.blacklisted or not app.lease
+                or (ig is not None and (app.identity is None or app.identity >= ig.count))
+                or app.allocation is None
+                or app.allocation.max_utilization != float('inf')):
+            raise SkipEvent()
+        app.renew = True
 
     def ev_Tick(self, n):
         self.v.clock += n
@@ -308,6 +323,8 @@ def replay(scn, history):
         line = dict(ev=shown or ev, args=list(args), h=h)
         try:
             w.apply(ev, args)
+        except SkipEvent:
+            return True
         except Exception as e:  # pylint: disable=broad-except
             line['exc'] = '%s: %s' % (type(e).__name__, e)
             line['post'] = lines[-1]['post']
